@@ -75,6 +75,10 @@ def cex_to_text(cex):
         lines.append("file " + " ".join(str(x) for x in fl))
     for op in cex.get("db", []):
         lines.append("db " + " ".join(str(x) for x in op))
+    for b in cex.get("bytes", []):
+        lines.append("bytes " + b)
+    for e in cex.get("encode", []):
+        lines.append("encode " + " ".join(str(x) for x in e))
     if "moves" in cex:
         lines.append("moves %s" % cex["moves"])
     if "block_size" in cex:
@@ -208,7 +212,56 @@ def family_db_views(seed):
     return [{"oracle": "db_views", "db": ops, "moves": moves[i % len(moves)]} for i, ops in enumerate(fam)]
 
 
+def family_batch_codec(seed):
+    """Serialized write batches (the payload of a WAL record): well formed, cut at and inside element
+    boundaries, with a count that disagrees with the elements present, with bad operation bytes."""
+    def varint(v):
+        out = bytearray()
+        while v >= 0x80:
+            out.append((v & 0x7f) | 0x80)
+            v >>= 7
+        out.append(v)
+        return bytes(out)
+    def el(op, k, v=None):
+        b = bytes([op]) + varint(len(k)) + k
+        if op == 1:
+            b += varint(len(v)) + v
+        return b
+    def batch(seq, els, count=None):
+        return seq.to_bytes(8, "little") + varint(len(els) if count is None else count) + b"".join(els)
+    x = (seed * 1103515245 + 12345) & 0x7fffffff
+    big = bytes((i * 7 + seed) % 251 for i in range(300))
+    sets = [
+        [el(1, b"a", b"1"), el(0, b"b"), el(1, b"c", b"")],
+        [el(1, b"", b""), el(1, big[:130], big), el(0, b"")],
+        [el(0, b"k")],
+        [],
+        [el(1, bytes([x % 256]), bytes([(x >> 8) % 256, 0xff, 0])), el(1, b"zz", big[:200]), el(0, b"zz"), el(1, b"y", b"2")],
+    ]
+    raws = []
+    for els in sets:
+        full = batch(7 + seed, els)
+        raws.append(full)
+        # count says more / fewer elements than are present
+        raws.append(batch(7, els, len(els) + 1))
+        if els:
+            raws.append(batch(7, els, len(els) - 1))
+            # cut exactly at every element boundary and one byte before / after it
+            off = 8 + len(varint(len(els)))
+            for e in els:
+                off += len(e)
+                for d in (-1, 0, 1):
+                    raws.append(full[:max(0, off + d)])
+    raws.append(b"")
+    raws.append(bytes(7))
+    raws.append(batch(1, [bytes([2]) + varint(1) + b"a"]))           # unknown operation byte
+    raws.append(batch(1, [bytes([1]) + varint(5) + b"ab"]))          # key shorter than announced
+    encs = [[9, "61", "31", "62", "!", "63", "-"], [2 ** 40 + seed, "-", "-"], [1, "6b", "!"]]
+    return [{"oracle": "batch_codec", "bytes": [r.hex() if r else "-" for r in raws], "encode": encs}]
+
+
 FAMILIES = [
+    ("U35::", family_batch_codec),
     ("U19::write_snapshot_record_file", family_db_snapshot),
     ("U10::implTable::get", family_table_get),
     ("U05::", family_log_reader),
@@ -260,6 +313,7 @@ BOUNDS = {
     "family_log_reader": "write-ahead-log byte streams built from the hand-written and seeded append / reopen / truncate / flip scripts of tools/replay.py (records up to 3 blocks)",
     "family_table_get": "one table of 16 entries (4 user keys x 4 versions) at block sizes 1, 64, 150, 4096 with 49 lookups, plus a one-entry table",
     "family_key_range": "three hand-written file lists",
+    "family_batch_codec": "5 batches of at most 4 elements (keys and values up to 300 bytes): each well formed, with the count off by one either way, cut at and one byte around every element boundary; 4 malformed buffers; 3 encodings",
 }
 
 
